@@ -7,6 +7,7 @@ import (
 	"strconv"
 
 	"github.com/golang/protobuf/proto"
+	"github.com/openacid/slim/index"
 	"github.com/openacid/slim/trie"
 )
 
@@ -27,7 +28,47 @@ type Unit struct {
 }
 
 var unitKinds = []string{"get", "getid", "rangeget", "search", "geti8", "geti16", "geti32", "geti64",
-	"scanfrom", "scanfromto", "iter", "stat", "string", "marshal", "protosize", "protomarshal"}
+	"scanfrom", "scanfromto", "iter", "stat", "string", "marshal", "protosize", "protomarshal",
+	// through index.SlimIndex (int64 offsets + a DataReader); weight 0 unless the values are 8-byte ints
+	"idxget", "idxrangeget"}
+
+// index.SlimIndex embeds the trie BY VALUE, so an index over a subject is a
+// second struct that shares the subject's arrays. It is made once per instance,
+// outside the concurrent phase (copying a struct that another task is using
+// would be the harness' own race), and shared by all tasks.
+var indexReg []*indexEntry
+
+// indexFrozen: free-running goroutines are reading the registry (race lane).
+var indexFrozen bool
+
+type indexEntry struct {
+	st *trie.SlimTrie
+	si *index.SlimIndex
+}
+
+type offsetReader struct{}
+
+// Read is the DataReader of the simulated record file: the record at an offset
+// is the offset itself and the key that was asked for.
+func (offsetReader) Read(offset int64, key string) (string, bool) {
+	return strconv.FormatInt(offset, 10) + "@" + key, offset%5 != 3
+}
+
+func indexOf(st *trie.SlimTrie) *index.SlimIndex {
+	for _, e := range indexReg {
+		if e.st == st {
+			return e.si
+		}
+	}
+	if curSim != nil || indexFrozen {
+		// not prepared before the concurrent phase: this call gets a private one
+		// (never registered from task context)
+		return &index.SlimIndex{SlimTrie: *st, DataReader: offsetReader{}}
+	}
+	e := &indexEntry{st: st, si: &index.SlimIndex{SlimTrie: *st, DataReader: offsetReader{}}}
+	indexReg = append(indexReg, e)
+	return e.si
+}
 
 func (u *Unit) key() string {
 	if u.ckey == "" {
@@ -234,6 +275,18 @@ func (u *Unit) run(st *trie.SlimTrie, y func()) (out string) {
 		sb.i(v)
 		sb.c(',')
 		sb.t(f)
+	case "idxget", "idxrangeget":
+		si := indexOf(st)
+		var v string
+		var f bool
+		if u.Kind == "idxget" {
+			v, f = si.Get(q)
+		} else {
+			v, f = si.RangeGet(q)
+		}
+		sb.s(v)
+		sb.c(',')
+		sb.t(f)
 	case "scanfrom", "scanfromto":
 		n := 0
 		cb := func(k, v []byte) bool {
@@ -422,6 +475,7 @@ type UnitMix struct {
 	Small     bool // String() allowed
 	Heavy     bool // marshal/protomarshal allowed often
 	IntWidth  int  // 1,2,4,8 if values are little-endian ints of that width; 0 otherwise
+	Index     bool // reads through index.SlimIndex as well (the index of the subject is made before the concurrent phase)
 	ScanLimit int
 }
 
@@ -451,6 +505,9 @@ func genUnit(r *Rng, qs [][]byte, mix UnitMix) Unit {
 		w["geti32"] = 6
 	case 8:
 		w["geti64"] = 6
+		if mix.Index {
+			w["idxget"], w["idxrangeget"] = 4, 4
+		}
 	}
 	ws := make([]int, len(unitKinds))
 	for i, k := range unitKinds {
